@@ -94,6 +94,14 @@ def _configs(op, da, db, k_total, salt=""):
             cfg["dtype_a"] = "i64"
             cfg["ints"] = True
         out.append(cfg)
+    if not db and op.result == "vec":
+        # always present: vector-valued operations on arrays whose stored columns are int64 (computed coordinates are floats and
+        # must not be written back into integer columns)
+        SA = R.SYSTEMS[da]
+        for j, ka in enumerate(("np1", "np2", "flat")):
+            out.append({"op": op.name, "da": da, "db": None, "ka": ka, "sa": R.sysname(SA[(h >> (3 * j + 1)) % len(SA)]),
+                        "fa": "m" if op.momentum else "gm"[(h >> j) % 2], "extra": False, "alt": 0, "spa": "generic",
+                        "scal": "py", "dtype_a": "i64", "ints": True})
     if db and "axis" not in op.tags:
         # always present: a single object broadcast against an Awkward array whose columns are int64 (coordinates of the
         # object that pass through unchanged must keep their own values), and the same pairing the other way round
